@@ -124,3 +124,36 @@ Qed.
 Theorem only_building_and_updates_change_the_cache : forall W json st o,
   match o with MMutate _ _ => view_cached (mview W json (mstep st o)) = view_cached (mview W json st) | _ => True end.
 Proof. intros W json st [t|id ob|r c|c]; try exact I. apply mutate_not_seen. Qed.
+
+(* ---- whatever the program did (any state of the mutation machine): CSV
+   shows, for every cell, the documented text of its item AS OF THE CELL'S LAST
+   READ - header first, separators dropped, short rows padded *)
+From Tab Require Import Model.Csv Spec.CsvParse Proofs.CsvProofs.
+
+Definition snap_doc (s : snap) : bytes := documented_text (snd s) (fst s).
+
+Definition state_records (st : mstate) : list (list snap) :=
+  let core := tb_core (m_tab st) in
+  match t_header core with Some cs => [map c_item cs] | None => [] end
+  ++ flat_map (fun tr => match row_cells tr with Some cs => [map c_item cs] | None => [] end) (t_rows core).
+
+Lemma csv_records_mview W json st :
+  csv_records (mview W json st) = map (map snap_doc) (state_records st).
+Proof.
+  unfold csv_records, mview, table_view, state_records, body_rows. cbn [v_header v_rows].
+  rewrite map_app. f_equal.
+  - destruct (t_header (tb_core (m_tab st))) as [cs|]; cbn [option_map map]; [|reflexivity].
+    f_equal. unfold row_texts. rewrite !map_map. apply map_ext. intros c. apply snap_text.
+  - induction (t_rows (tb_core (m_tab st))) as [|tr rows IH]; [reflexivity|].
+    cbn [map flat_map]. destruct (row_cells tr) as [cs|]; cbn [option_map app map].
+    + rewrite IH. f_equal. unfold row_texts. rewrite !map_map. apply map_ext. intros c. apply snap_text.
+    + exact IH.
+Qed.
+
+Theorem csv_after_any_program : forall W json st out,
+  csv_render (mview W json st) = Ok out ->
+  parse_csv out = Some (map (pad_to (t_ncols (tb_core (m_tab st)))) (map (map snap_doc) (state_records st))).
+Proof.
+  intros W json st out H. destruct (csv_roundtrip _ _ H) as [Hp _].
+  unfold csv_expected in Hp. rewrite csv_records_mview in Hp. exact Hp.
+Qed.
